@@ -254,6 +254,68 @@ def pqueryShardLB (c : PClient) (st : PStreams) (ident : String) (size period no
     (ids, if store then { c with lbCache := setAssoc k ⟨ids, w, pvalidBefore c.parts ids w⟩ c.lbCache } else c)
 
 
+/-! ## the two halves of a shuffle-shard query and the cache-fill guard
+
+`Ring.ShuffleShard` is not atomic: it (1) looks the cache up and, on a miss, computes the sub-ring under
+the read lock (`shuffleShard`; the sub-ring remembers the `lastTopologyChange` it was built at,
+`Sub.epoch`), releases the lock, and (2) `setCachedShuffledSubring` takes the write lock and stores the
+sub-ring **only if `r.lastTopologyChange.Equal(subring.lastTopologyChange)`**. Between (1) and (2) the
+watch callback may run `updateRingState` any number of times and other readers may query and store.
+`beginShard` / `storeShard` (and the look-back pair) are the two halves; `queryShard` is one directly
+after the other (`PfC13.queryShard_eq_begin_store`). The epoch is a counter: two re-indexings never
+carry the same `lastTopologyChange` (in Go: two `time.Now()` readings under the write lock never
+coincide — the explicit hypothesis behind the guard). -/
+
+/-- first half of `ShuffleShard`: answer, the sub-ring to be stored later (if one was built), client. -/
+def beginShard (c : Client) (st : Streams) (ident : String) (size : Int) : Desc × Option Sub × Client :=
+  let k : Key := ⟨ident, size⟩
+  match lookupAssoc k c.cache with
+  | some s =>
+    let s' := refresh c.desc s
+    (s'.members, none, { c with cache := setAssoc k s' c.cache })
+  | none =>
+    if isSelf c size 0 0 then (c.desc, none, c)
+    else
+      let s : Sub := ⟨computeMembers c st ident size 0 0, c.epoch⟩
+      (s.members, some s, c)
+
+/-- second half, `setCachedShuffledSubring`: store only if the ring was not re-indexed in between. -/
+def storeShard (c : Client) (k : Key) (s : Sub) : Client :=
+  if s.epoch == c.epoch then { c with cache := setAssoc k s c.cache } else c
+
+/-- first half of `ShuffleShardWithLookback` (the pending store remembers the window start). -/
+def beginShardLB (c : Client) (st : Streams) (ident : String) (size period now : Int) : Desc × Option (Sub × Int) × Client :=
+  let k : LKey := ⟨ident, size, period⟩
+  let w := now - period
+  let hit : Option LBEntry :=
+    match lookupAssoc k c.lbCache with
+    | some e => if w < e.after || w > e.before then none else some e
+    | none => none
+  match hit with
+  | some e =>
+    let s' := refresh c.desc e.sub
+    (s'.members, none, { c with lbCache := setAssoc k { e with sub := s' } c.lbCache })
+  | none =>
+    if isSelf c size period now then (c.desc, none, c)
+    else
+      let s : Sub := ⟨computeMembers c st ident size period now, c.epoch⟩
+      (s.members, some (s, w), c)
+
+/-- second half, `setCachedShuffledSubringWithLookback`: nothing if the ring was re-indexed in between;
+otherwise store unless an entry for a later (or the same) window start is already there. -/
+def storeShardLB (c : Client) (k : LKey) (s : Sub) (w : Int) : Client :=
+  if s.epoch == c.epoch then
+    let store : Bool :=
+      match lookupAssoc k c.lbCache with
+      | some e => decide (e.after < w)
+      | none => true
+    if store then { c with lbCache := setAssoc k ⟨s, w, validBefore s.members w⟩ c.lbCache } else c
+  else c
+
+/-- `Ring.CleanupShuffleShardCache(identifier)`: drops the identifier's entries from both caches. -/
+def cleanup (c : Client) (ident : String) : Client :=
+  { c with cache := c.cache.filter (fun e => e.1.ident != ident), lbCache := c.lbCache.filter (fun e => e.1.ident != ident) }
+
 /-! ## further reads of the client: `Get` (any operation / replication factor), `GetReplicationSetForOperation`,
 `GetTokenRangesForInstance`, `Zones`, and `Get` on a returned shuffle-shard sub-ring
 
